@@ -1381,6 +1381,46 @@ pub fn generate(sink: &mut Sink, seed: u64, thorough: bool) {
         }
         add_case(sink, &mut rng, &run.file, "narrow_prototype_file", true);
     }
+    // 1e. validity mix (C05): ONE prototype with every attribute group and every invalid-state attribute; the points
+    //     enumerate all combinations of the flags (3 x 3 x 2 x 2), so that every fallback of the documented view
+    //     (spherical -> Cartesian, intensity -> grey colour, absent colour / intensity) occurs next to its opposite
+    for k in 0..(if thorough { 40 } else { 6 }) {
+        let f32dt = DT::F32(None, None);
+        let proto: Vec<Rec> = [
+            ("cartesianX", f32dt.clone()), ("cartesianY", f32dt.clone()), ("cartesianZ", f32dt.clone()), ("cartesianInvalidState", DT::I(0, 2)),
+            ("sphericalRange", f32dt.clone()), ("sphericalAzimuth", f32dt.clone()), ("sphericalElevation", f32dt.clone()), ("sphericalInvalidState", DT::I(0, 2)),
+            ("colorRed", DT::I(0, 255)), ("colorGreen", DT::I(0, 255)), ("colorBlue", DT::I(0, 255)), ("isColorInvalid", DT::I(0, 1)),
+            ("intensity", DT::I(0, 4095)), ("isIntensityInvalid", DT::I(0, 1)), ("rowIndex", DT::I(0, 100)), ("columnIndex", DT::I(0, 100)),
+        ].iter().map(|(n, d)| Rec { name: RName::Std(n.to_string()), dt: d.clone() }).collect();
+        let mut body: Vec<PcStmt> = vec![];
+        if k % 2 == 1 {
+            body.push(PcStmt::Tr(Some([0.5f64.to_bits(), 0.5f64.to_bits(), 0.5f64.to_bits(), 0.5f64.to_bits(), 1f64.to_bits(), 2f64.to_bits(), 3f64.to_bits()])));
+        }
+        for c in 0..3i64 {
+            for sp in 0..3i64 {
+                for ci in 0..2i64 {
+                    for ii in 0..2i64 {
+                        let f = |rng: &mut Rng| Val::F(((rng.range(-500, 500) as f32) / 7.0).to_bits());
+                        body.push(PcStmt::P(vec![
+                            f(&mut rng), f(&mut rng), f(&mut rng), Val::I(c),
+                            Val::F(((rng.range(1, 900) as f32) / 9.0).to_bits()), Val::F(((rng.range(-300, 300) as f32) / 100.0).to_bits()), Val::F(((rng.range(-150, 150) as f32) / 100.0).to_bits()), Val::I(sp),
+                            Val::I(rng.range(0, 255)), Val::I(rng.range(0, 255)), Val::I(rng.range(0, 255)), Val::I(ci),
+                            Val::I(rng.range(0, 4095)), Val::I(ii), Val::I(rng.range(0, 100)), Val::I(rng.range(0, 100)),
+                        ]));
+                    }
+                }
+            }
+        }
+        let prog = Program { guid: "validity".into(), stmts: vec![Stmt::Pc { guid: "pc".into(), proto, body, end: true }, Stmt::Fin] };
+        let run = execute(&prog, &crate::dev::SimDev::new(vec![]));
+        if run.panicked || run.results.last().map(|s| s != "ok").unwrap_or(true) {
+            continue;
+        }
+        // the default options and a random vector
+        let o2 = rng.below(64);
+        let ops: Vec<String> = ["META", "SIMPLE", "0", "63", "40", "SIMPLE", "0", &o2.to_string(), "40", "RAW", "0", "40"].iter().map(|s| s.to_string()).collect();
+        add_case_ops(sink, &run.file, &ops, "validity_mix_file");
+    }
     // 2. bundled test data (other producers: E57 reference implementation, libE57Format, LAS converter)
     for (name, bytes) in bundled_files(if thorough { 800_000 } else { 60_000 }) {
         add_case(sink, &mut rng, &bytes, &format!("bundled_{name}"), true);
